@@ -16,6 +16,10 @@ and the text slots of every modelled markup call made inside a history.  Third t
 stylesheet pipeline model (run/HistoryStyle.v, evaluated inside Coq because the scorer uses PrimFloat) predicts
 the output string of every stylesheet call of a history and which table every cache dict holds.
 
+Two further history classes come from harness/history_classes.py: one caller-owned global_config object with type-level
+and syntax-level sections passed with calls of differing syntaxes ("globals"/"@gref" in the history format), and
+stylesheet values that are function calls with explicit arguments against snippets with function keywords.
+
 C08_SKIP_CORPUS=1 leaves the committed corpus out (sanity runs that must find a defect from generated input)."""
 import glob
 import json
@@ -26,8 +30,22 @@ from concurrent.futures import ThreadPoolExecutor
 import common
 import history_util as hu
 import history_nested as hn
+import history_classes as hc
 
 KEYS_SUPPORT = ('objects-kept-alive',)
+
+_T0 = [None]
+
+
+def _phase(label):
+    """C08_TIMING=1: wall time of the phases of run() on stderr (development aid, no effect on the check)"""
+    import sys
+    import time
+    if os.environ.get('C08_TIMING'):
+        now = time.time()
+        if _T0[0] is not None:
+            sys.stderr.write('C08 phase %-28s %6.1fs\n' % (label, now - _T0[0]))
+        _T0[0] = now
 
 
 # ------------------------------------------------------------------ model encoding
@@ -202,9 +220,9 @@ def encode_markup_history(h, r):
                 slots.append([0])
         if spec.get('type') == 'stylesheet':
             continue
-        if '@global' in spec or '@tabstop' in json.dumps(spec.get('options') or {}):
+        if '@global' in spec or '@gref' in spec or '@tabstop' in json.dumps(spec.get('options') or {}):
             continue
-        clean = {kk: v for kk, v in spec.items() if kk not in ('cache', '@global')}
+        clean = {kk: v for kk, v in spec.items() if kk not in ('cache', '@global', '@gref')}
         if mu.mentions_lorem(c['abbr'], clean):
             continue
         try:
@@ -284,7 +302,7 @@ def encode_css_history(h):
         spec = h['dicts'][di]
         if spec.get('type') != 'stylesheet':
             continue
-        if '@global' in spec:
+        if '@global' in spec or '@gref' in spec:
             return None
         opts = dict(spec.get('options') or {})
         tab = False
@@ -312,6 +330,10 @@ def css_tie(ctx, hs, rs, limit):
     items = []
     prio = {'corpus': 0, 'random': 1, 'pair': 2}
     order = sorted(range(len(hs)), key=lambda k: (prio.get(hs[k][0].split(':')[0], 3), k))
+    # a fixed share for the histories with function-call values (every third pair history, then random ones)
+    fn = [k for k in range(len(hs)) if hs[k][0] == 'fnargs-pair'][::3] + [k for k in range(len(hs)) if hs[k][0] == 'fnargs-random']
+    fn = fn[:max(20, limit // 8)]
+    order = fn + [k for k in order if k not in set(fn)]
     for k in order:
         (label, h), r = hs[k], rs[k]
         if len(items) >= limit:
@@ -352,6 +374,8 @@ def css_tie(ctx, hs, rs, limit):
             h, r = hs[k][1], rs[k]
             seq = list(h['calls']) + [h['probe']]
             stats['histories'] += 1
+            if hs[k][0].startswith('fnargs'):
+                stats['histories_with_function_call_values'] = stats.get('histories_with_function_call_values', 0) + 1
             dd = []
             for (ck, di) in which:
                 res, cs = su.decode_show(next(it)), next(it)
@@ -400,6 +424,10 @@ def cover_history(ctx, h, r):
                 nested_fail = True
         if c['via'] != 'default' and '@global' in h['dicts'][h['objs'][c['d']] if c['via'] == 'obj' else c['d']]:
             ctx.cover('call_with_global_config')
+        if c['via'] != 'default' and '@gref' in h['dicts'][h['objs'][c['d']] if c['via'] == 'obj' else c['d']]:
+            ctx.cover('call_with_shared_global_config_object')
+        if rec['kind'] == 'stylesheet' and hc.is_fn_call_abbr(c['abbr']):
+            ctx.cover('stylesheet_call_with_function_arguments' + ('_output_has_function' if rec['out'][0] == 'ok' and '(' in rec['out'][1] else ''))
         if c['via'] != 'default':
             di = h['objs'][c['d']] if c['via'] == 'obj' else c['d']
             spec = h['dicts'][di]
@@ -410,10 +438,17 @@ def cover_history(ctx, h, r):
                 ctx.cover('failing_resolution_with_truthy_text')
             if (spec.get('options') or {}).get('bem.enabled') and spec.get('type') != 'stylesheet':
                 ctx.cover('bem_call')
+    nt = False
+    if h.get('globals'):
+        nsyn, both = hc.global_layering(h)
+        ctx.cover('shared_global_config_passed_with_%d_syntaxes' % min(nsyn, 4))
+        if both:
+            ctx.cover('global_config_defines_a_key_on_type_and_syntax_level')
+        nt = both and nsyn > 1
     if any(len(v) > 1 for v in shared_cache_sets.values()):
         ctx.cover('histories_sharing_a_cache_between_different_snippets_or_options')
-        return True
-    return False
+        nt = True
+    return nt
 
 
 # ------------------------------------------------------------------ run
@@ -450,10 +485,20 @@ def gen(ctx):
         hs += [('nested-pair', h) for h in hn.nested_pair_histories()]
     n_nested = 90 if ctx.tier == 'quick' else 2000
     hs += [('nested-random', hn.rand_nested_history(rng)) for _ in range(n_nested)]
+    # ONE caller-owned global configuration with type-level AND syntax-level sections, passed with calls of differing syntaxes
+    if not os.environ.get('C08_ONLY_RANDOM'):
+        hs += [('global-pair', h) for h in hc.global_pair_histories()]
+    n_cls = 28 if ctx.tier == 'quick' else 800
+    hs += [('global-random', hc.rand_global_history(rng)) for _ in range(n_cls)]
+    # stylesheet values that are function calls WITH arguments, against snippets that have function keywords
+    if not os.environ.get('C08_ONLY_RANDOM'):
+        hs += [('fnargs-pair', h) for h in hc.fnargs_pair_histories()]
+    hs += [('fnargs-random', hc.rand_fnargs_history(rng)) for _ in range(n_cls)]
     return hs
 
 
 def run(ctx):
+    _phase('start')
     ok = ctx.build(['props/C08.vo', 'run/HistoryRun.vo', 'run/HistoryStyle.vo', 'proofs/HistoryWorlds.vo', 'proofs/HistoryFull.vo'])
     if ok:
         ctx.obligations('props/C08.v')
@@ -471,17 +516,44 @@ def run(ctx):
         'after a sibling, in a group, repeated, deeper, with attributes; followed by calls that use the enclosing snippets '
         'through the same dict, an equal copy, a Config object, a well-formed / circular twin, another syntax and no '
         'configuration (all ordered (stopping call, probe) pairs over a compact pool + random histories of 1..6 calls; '
-        'raised_with_N_snippet_levels_open counts the depth really reached).  Oracle per call: result = result of the same call alone in a pristine process (forked from a '
+        'raised_with_N_snippet_levels_open counts the depth really reached); LAYERED, SHARED GLOBAL CONFIGURATIONS '
+        '(harness/history_classes.py): ONE caller-owned global_config object (history keys "globals"/"@gref") with type-level '
+        '(markup, stylesheet) AND syntax-level (html, jsx, pug, xml, xsl, haml, slim / css, scss, sass, less, stylus, sss) sections '
+        'that define the same key (options, snippets, variables) on both levels, on one level, or empty, passed with calls of '
+        'differing syntaxes and types through dicts, equal copies and Config objects built from it, next to a second shared global, '
+        'a private equal "@global" and the call\'s own options/snippets/variables (all ordered (call, probe) pairs of syntaxes of '
+        'one type over 2 fixed global configurations + random histories of 1..6 calls; every shared global is deep-compared before/'
+        'after EVERY call); FUNCTION-CALL VALUES WITH ARGUMENTS: stylesheet snippets that have function keywords (documented '
+        'built-in trf, cp, gtc, gtr, gac, cnt, animtf and user-defined tables), the keyword named by a 1-letter / 2-letter / full '
+        'abbreviation after : or -, with no call, (), fewer / as many / more arguments than the keyword has, comma- or space-'
+        'separated numbers, units, colours, strings, nested calls, followed through the same cache dict (same dict, equal copy, '
+        'Config object, other options / other snippet table, no cache) by the same keyword with fewer or no arguments (one '
+        '(call with arguments, probe) family per keyword + random histories of 1..6 calls).  The calls with a global '
+        'configuration are judged by the oracle and the state tie only (the pipeline models take a resolved configuration '
+        'without global layers); a fixed share of the function-call histories goes through the stylesheet pipeline model.  Oracle per call: result = result of the same call alone in a pristine process (forked from a '
         'server that imported emmet and never called it; a sample is re-checked against really fresh interpreters), = '
         'result without cache; caller dicts/Config objects deep-equal before/after; module state of emmet.* unchanged; '
         'no emmet instance stays alive (gc: support, not proof).  non-trivial = a history in which one cache dict is used '
-        'by configurations with different snippets or options, or a call raises on a configuration with text; distinct by content.')
+        'by configurations with different snippets or options, or a call raises on a configuration with text, or one global '
+        'configuration object that defines a key on both levels is passed with calls of two or more syntaxes; distinct by content.')
     ctx.cov['partial_clause'] = ('"keeps no per-call data alive" is a statement about the CPython heap: the model covers the '
                                  'containers it names (theorem C08_no_growth), the harness measures container fingerprints of '
                                  'emmet.* and live-instance counts (gc.get_objects) -- support, not proof.')
+    _phase('build+obligations')
     hs = gen(ctx)
     pool = hu.Pool()
+    if os.environ.get('C08_TIMING'):
+        import collections
+        import time
+        for lab in sorted(set(l.split(':')[0] for l, _ in hs)):
+            t0 = time.time()
+            sub = [h for l, h in hs if l.split(':')[0] == lab]
+            pool.run(sub)
+            import sys
+            sys.stderr.write('C08 pool %-16s %4d histories %6.1fs\n' % (lab, len(sub), time.time() - t0))
+    _phase('gen')
     rs = pool.run([h for _, h in hs])
+    _phase('pool.run')
     corr = {'histories': 0, 'calls_compared': 0, 'disagreements': 0, 'outside_model': 0}
     wires, idx = [], []
     for k, ((label, h), r) in enumerate(zip(hs, rs)):
@@ -506,6 +578,7 @@ def run(ctx):
         if diffs:
             corr['disagreements'] += 1
             disagree[k] = diffs
+    _phase('state tie')
     # markup half over the real pipeline model: real output strings of calls made inside histories
     mcorr = {'histories': 0, 'calls_compared': 0, 'disagreements': 0}
     if model is not None:
@@ -527,12 +600,14 @@ def run(ctx):
             if d2:
                 mcorr['disagreements'] += 1
                 disagree.setdefault(k, []).extend(d2)
+    _phase('markup tie')
     # stylesheet half over the real pipeline model, evaluated inside Coq
     scorr = {'histories': 0, 'calls_compared': 0, 'disagreements': 0}
     if ok:
-        d3, scorr = css_tie(ctx, hs, rs, 150 if ctx.tier == 'quick' else 1500)
+        d3, scorr = css_tie(ctx, hs, rs, 170 if ctx.tier == 'quick' else 1700)
         for k, dd in d3.items():
             disagree.setdefault(k, []).extend(dd)
+    _phase('stylesheet tie (coqc)')
     n_fail = 0
     unexplained = []
     for k, ((label, h), r) in enumerate(zip(hs, rs)):
@@ -602,6 +677,7 @@ def run(ctx):
                              'reflexivity, + C08_executed_world_is_expand_markup); C08_state_size_bounded / C08_cache_entry_origin: the '
                              'model-level reading of "keeps no per-call data alive" (state size bounded by the number of cache dicts the '
                              'caller shares, independent of the history length; a cache dict holds the table of ONE call).')
+    _phase('oracle+search')
     # the fork server's "fresh state" is re-checked against really fresh interpreters
     n_once = 24 if ctx.tier == 'quick' else 200
     picks = []
@@ -627,6 +703,7 @@ def run(ctx):
             ctx.broken.append({'kind': 'fork-server-not-fresh', 'file': 'history %d call %d: forked %r, fresh interpreter %r'
                                % (k, j, rs[k]['fresh'][j]['out'], o['out'])})
     ctx.cov['fresh_interpreter_recheck'] = {'calls': len(picks), 'different': bad}
+    _phase('fresh-interpreter recheck')
     for k in range(3, min(len(hs), 600), 97):
         label, h = hs[k]
         ctx.sample({'source': label, 'history': h,
